@@ -93,7 +93,8 @@ def selection(ck, ctx):
         # loop covers all targets
         bad = C.loop_no_early_exit(ctx, b, bb)
         errs = [eb for eb, _ in C.err_return_blocks(ctx, b)]
-        bad = [e_ for e_ in (bad or []) if not any(eb in cfg.reach_avoid([e_[2]], avoid_blocks=[info["p2"][0]]) for eb in errs)]
+        # an exit is fine only if it can end in nothing but an error return (a `break` goes on to the final run)
+        bad = [e_ for e_ in (bad or []) if not (errs and not (set(cfg.returns()) & cfg.reach_avoid([e_[2]], avoid_blocks=errs)) and info["p2"][0] not in cfg.reach_avoid([e_[2]], avoid_blocks=errs))]
         ck.ob("selection", "all-targets-visited", bad == [], "the loop over args.targets ends only at exhaustion, by `?` or with the unknown-path error (%s)" % bad, span=t["loc"], fn=BUILD)
         # unknown
         def pred_adopt(e):
